@@ -34,6 +34,10 @@ def run(db, chk) -> None:
     m = db.mod(CK)
     _roots_and_patterns(db, chk, m)
     _results(db, chk, m)
+    from .c13 import check_stack_labels
+    check_stack_labels(db, chk, "C16.R7-thread-labels")          # which thread hangs beneath which decides the depth of the operator instances that are counted
+    from .c03 import host_rows_complete
+    host_rows_complete(db, chk, "C16.R6-tree-complete")          # the patterns are read off the call tree: every host event of the thread must be a node of it
     _descendants(db, chk)
     _tree_dependency(db, chk)
     from .c13 import check_publish_order
